@@ -634,7 +634,7 @@ class ObjEval:
                 if isinstance(v, BoundMethod) and v.receiver is None and isinstance(receiver, Instance) and v.f.kind not in ("staticmethod", "classmethod"):
                     return self.bind(v.f, receiver, v.owner or k)  # `alias = method` in the class body
                 return v
-        if name in ("visit", "generic_visit") and isinstance(receiver, Instance) and "ast.NodeVisitor" in self.repo.mro(c):
+        if name in ("visit", "generic_visit") and isinstance(receiver, Instance) and ("ast.NodeVisitor" in self.repo.mro(c) or "ast.NodeTransformer" in self.repo.mro(c)):
             return _NodeVisitorMethod(self, receiver, name)
         if name in self.external_base_methods and isinstance(receiver, Instance) and any(not b.startswith("fickling.") for b in self.repo.mro(c)):
             return self.external_base_methods[name](receiver)
@@ -644,7 +644,7 @@ class ObjEval:
             if mx is not None:
                 return mx
         for b in ext:
-            if b == "ast.NodeVisitor":
+            if b in ("ast.NodeVisitor", "ast.NodeTransformer"):
                 continue  # modelled: visit / generic_visit above; its visit_Constant shim only forwards to generic_visit
             if _external_defines(b, name):
                 # an attribute the class inherits from outside the repository: not something this interpreter can run, and not
@@ -963,6 +963,29 @@ class _NodeVisitorMethod:
                 m = self.oe.class_getattr(self.receiver.c, "generic_visit", self.receiver)
             return m(node)
         visit = self.oe.class_getattr(self.receiver.c, "visit", self.receiver)
+        if "ast.NodeTransformer" in self.oe.repo.mro(self.receiver.c):
+            # ast.NodeTransformer.generic_visit (Lib/ast.py): every child is replaced, IN PLACE, by what visiting it returns
+            # (None removes it, a list is spliced in) - and the node itself is returned
+            for fld, old in ast.iter_fields(node):
+                if isinstance(old, list):
+                    new_values = []
+                    for value in old:
+                        if isinstance(value, ast.AST):
+                            value = visit(value)
+                            if value is None:
+                                continue
+                            if not isinstance(value, ast.AST):
+                                new_values.extend(value)
+                                continue
+                        new_values.append(value)
+                    old[:] = new_values
+                elif isinstance(old, ast.AST):
+                    new_node = visit(old)
+                    if new_node is None:
+                        delattr(node, fld)
+                    else:
+                        setattr(node, fld, new_node)
+            return node
         for _fld, value in ast.iter_fields(node):
             if isinstance(value, list):
                 for item in value:
